@@ -36,12 +36,16 @@
 (* authentication of an installed socket "completes" once more).  On             *)
 (* authenticated connections SetupDone is bound to the hook in                   *)
 (* handleAuthResponse; the nonce packets themselves are not modelled.            *)
+(* Every call has its own limit dl (the client timeout, or the caller's earlier    *)
+(* context deadline / cancellation); the deadline clauses use it.  A reader takes *)
+(* the silence branch only SilenceMs after the last packet it took - pongs        *)
+(* included: a connection on which packets keep arriving is not torn down.         *)
 (* Quiesce closes the segment: every call returned, queries = {}, no delivery in *)
 (* progress, every connection Connected on an open socket, old generations gone, *)
 (* and the goroutine census of the process equals the model's.                   *)
 EXTENDS LiteClient, Json, Integers
 
-CONSTANTS Slack, RecoverMs, RetryMs, MaxCalls
+CONSTANTS Slack, RecoverMs, RetryMs, MaxCalls, SilenceMs
 
 Trace == ndJsonDeserialize("trace.ndjson")
 N     == Len(Trace)
@@ -69,8 +73,11 @@ VARIABLES l, seg,
   recBy,    \* recBy[k]: time by which connection k must be on an open socket again (Inf: no obligation)
   crun,     \* crun[k]: generation -> packet: R has taken the packet from P (P has moved on), R's own hook is still to come
   sending,  \* sending[k]: somebody is inside Send's critical section of Connection.mu (after the status check, before the result)
+  dl,       \* dl[c]: the call's own time limit (ms from its start): the client timeout, or the caller's earlier deadline / cancellation
+  lastRx,   \* lastRx[k]: generation -> time its reader last took a packet (or was started): its 10 s silence timer restarts there
   refused   \* connection attempts the server has closed during their handshake and the client has not yet reported as failed dials
-aux   == <<ncalls, tmo, t0, dlvAt, ansAt, trying, early, clun, indlv, recBy, crun, sending, refused>>
+aux   == <<ncalls, tmo, t0, dlvAt, ansAt, trying, early, clun, indlv, recBy, crun, sending, refused, dl, lastRx>>
+OtherAux == <<ncalls, tmo, t0, dlvAt, ansAt, trying, early, clun, indlv, recBy, sending, refused, dl>>     \* all but crun and lastRx
 tvars == <<vars, l, seg, now, aux>>
 
 E == Trace[l]
@@ -89,19 +96,23 @@ TraceInit ==
   /\ trying = [c \in Calls |-> FALSE] /\ early = [c \in Calls |-> FALSE]
   /\ clun = [k \in Conns |-> FALSE] /\ indlv = [k \in Conns |-> FALSE] /\ recBy = [k \in Conns |-> Inf]
   /\ crun = [k \in Conns |-> <<>>] /\ sending = [k \in Conns |-> FALSE] /\ refused = 0
+  /\ dl = [c \in Calls |-> 0] /\ lastRx = [k \in Conns |-> <<>>]
 
 TReset == /\ K = "Reset" /\ l = seg /\ E.nconns = NConns /\ E.ncalls \in 0..Cardinality(Calls)
           /\ ncalls' = E.ncalls /\ tmo' = E.timeout
-          /\ NoOp /\ UNCHANGED <<t0, dlvAt, ansAt, trying, early, clun, indlv, recBy, crun, sending, refused>>
+          /\ NoOp /\ UNCHANGED <<t0, dlvAt, ansAt, trying, early, clun, indlv, recBy, crun, sending, refused, dl, lastRx>>
 
-Deadline(c) == t0[c] + tmo
+Deadline(c) == t0[c] + dl[c]
 IsCall(i) == i \in 1..ncalls
 
 \* ------------------------------------------------------------------ callers
+\* the call's own limit: the caller's context may carry a deadline (or be cancelled) earlier than the client's timeout
 TCall == LET c == E.i IN
   /\ IsCall(c) /\ pc[c] = "start" /\ t0[c] = Inf
   /\ t0' = [t0 EXCEPT ![c] = T] /\ NoOp
-  /\ UNCHANGED <<ncalls, tmo, dlvAt, ansAt, trying, early, clun, indlv, recBy, crun, sending, refused>>
+  /\ dl' = [dl EXCEPT ![c] = IF "dl" \in DOMAIN E THEN E.dl ELSE tmo]
+  /\ ("dl" \in DOMAIN E => E.dl \in 1..tmo)
+  /\ UNCHANGED <<ncalls, tmo, dlvAt, ansAt, trying, early, clun, indlv, recBy, crun, sending, refused, lastRx>>
 
 TimeoutJustified(c) ==
   /\ T >= Deadline(c) - 1
@@ -120,15 +131,15 @@ TCaller == LET c == E.i IN
        [] K = "send.try"  -> /\ pc[c] = "picked" /\ conn[c] = E.c /\ status[E.c] = "Connected" /\ ~trying[c]
                              /\ MuFree(E.c) /\ sending' = [sending EXCEPT ![E.c] = TRUE]
                              /\ trying' = [trying EXCEPT ![c] = TRUE] /\ NoOp
-                             /\ UNCHANGED <<ncalls, tmo, t0, dlvAt, ansAt, early, clun, indlv, recBy, crun, refused>>
+                             /\ UNCHANGED <<ncalls, tmo, t0, dlvAt, ansAt, early, clun, indlv, recBy, crun, refused, dl, lastRx>>
        [] K = "send.ok"   -> /\ trying[c] /\ conn[c] = E.c
                              /\ IF early[c] THEN NoOp ELSE SendOk(c)
                              /\ trying' = [trying EXCEPT ![c] = FALSE] /\ early' = [early EXCEPT ![c] = FALSE]
                              /\ sending' = [sending EXCEPT ![E.c] = FALSE]
-                             /\ UNCHANGED <<ncalls, tmo, t0, dlvAt, ansAt, clun, indlv, recBy, crun, refused>>
+                             /\ UNCHANGED <<ncalls, tmo, t0, dlvAt, ansAt, clun, indlv, recBy, crun, refused, dl, lastRx>>
        [] K = "send.fail" -> /\ trying[c] /\ ~early[c] /\ conn[c] = E.c /\ SendFail(c)
                              /\ trying' = [trying EXCEPT ![c] = FALSE] /\ sending' = [sending EXCEPT ![E.c] = FALSE]
-                             /\ UNCHANGED <<ncalls, tmo, t0, dlvAt, ansAt, early, clun, indlv, recBy, crun, refused>>
+                             /\ UNCHANGED <<ncalls, tmo, t0, dlvAt, ansAt, early, clun, indlv, recBy, crun, refused, dl, lastRx>>
        [] K = "ret.answer"  -> ~trying[c] /\ CallerRecv(c) /\ ret'[c] = <<"answer", E.h>> /\ Same(aux)
        [] K = "ret.timeout" -> ~trying[c] /\ TimeoutJustified(c) /\ CallerTimeout(c) /\ Same(aux)
        [] K = "ret.err"     -> pc[c] = "unreg" /\ ret[c][1] \in {"senderr", "notconnected"} /\ NoOp /\ Same(aux)
@@ -143,7 +154,7 @@ SendKinds   == {"send.nc", "send.try", "send.ok", "send.fail"}
 
 \* the ping goroutine's Send
 PingAux(k, b) == /\ sending' = [sending EXCEPT ![k] = b]
-                 /\ UNCHANGED <<ncalls, tmo, t0, dlvAt, ansAt, trying, early, clun, indlv, recBy, crun, refused>>
+                 /\ UNCHANGED <<ncalls, tmo, t0, dlvAt, ansAt, trying, early, clun, indlv, recBy, crun, refused, dl, lastRx>>
 TPing == LET k == E.c IN
   /\ k \in Conns
   /\ CASE K = "send.nc"   -> status[k] # "Connected" /\ MuFree(k) /\ NoOp /\ Same(aux)
@@ -166,16 +177,16 @@ TServer == LET k == E.c  g == E.g IN
     \* the server has read the handshake of a connection attempt and holds its acknowledgement back for E.ms: the recovery takes that much longer
     [] K = "srv.stall" -> /\ NoOp /\ k \in Conns
                           /\ recBy' = [recBy EXCEPT ![k] = IF @ = Inf THEN Inf ELSE @ + E.ms]
-                          /\ UNCHANGED <<ncalls, tmo, t0, dlvAt, ansAt, trying, early, clun, indlv, crun, sending, refused>>
+                          /\ UNCHANGED <<ncalls, tmo, t0, dlvAt, ansAt, trying, early, clun, indlv, crun, sending, refused, dl, lastRx>>
     [] K = "srv.hsdrop" -> /\ NoOp /\ refused' = refused + 1
-                           /\ UNCHANGED <<ncalls, tmo, t0, dlvAt, ansAt, trying, early, clun, indlv, recBy, crun, sending>>
+                           /\ UNCHANGED <<ncalls, tmo, t0, dlvAt, ansAt, trying, early, clun, indlv, recBy, crun, sending, dl, lastRx>>
     [] K = "srv.up"   -> k \in Conns /\ g = gen[k] + 1 /\ DialOk(k) /\ Same(aux)
     [] K = "srv.recv" -> /\ OnLink /\ Same(aux)
                          /\ IF Fin = "open" THEN E.i \in Calls /\ SrvRecv(k, g, E.i) ELSE NoOp
     [] K = "srv.ans"  -> /\ OnLink /\ Fin \in {"open", "cli"}
                          /\ IF Fin = "open" THEN E.i \in Calls /\ SrvAnswer(k, g, E.i, E.h) /\ MarkAns(E.i)
                             ELSE NoOp /\ UNCHANGED ansAt
-                         /\ UNCHANGED <<ncalls, tmo, t0, dlvAt, trying, early, clun, indlv, recBy, crun, sending, refused>>
+                         /\ UNCHANGED <<ncalls, tmo, t0, dlvAt, trying, early, clun, indlv, recBy, crun, sending, refused, dl, lastRx>>
     [] K = "srv.dup"  -> /\ OnLink /\ Fin \in {"open", "cli"} /\ Same(aux)
                          /\ IF Fin = "open" THEN E.i \in Calls /\ SrvDup(k, g, E.i, E.h) ELSE NoOp
     [] K = "srv.unk"  -> /\ OnLink /\ Fin \in {"open", "cli"} /\ Same(aux)
@@ -189,25 +200,30 @@ TServer == LET k == E.c  g == E.g IN
                               THEN /\ SrvDrop(k, g)
                                    /\ recBy' = [recBy EXCEPT ![k] = Min2(@, T + RecoverMs)]
                               ELSE NoOp /\ UNCHANGED recBy
-                         /\ UNCHANGED <<ncalls, tmo, t0, dlvAt, ansAt, trying, early, clun, indlv, crun, sending, refused>>
+                         /\ UNCHANGED <<ncalls, tmo, t0, dlvAt, ansAt, trying, early, clun, indlv, crun, sending, refused, dl, lastRx>>
 ServerKinds == {"srv.authnonce", "srv.stall", "srv.hsdrop", "srv.up", "srv.recv", "srv.ans", "srv.dup", "srv.unk", "srv.other", "srv.pong", "srv.drop"}
 
 \* -------------------------------------------------- generation g of connection c
 PktMatches(p) == IF E.ty = "ans" THEN p.t = "ans" /\ p.id = E.i /\ p.v = E.h
                  ELSE p.t = "other" /\ p.v = E.h
 Pending(k, g) == g \in DOMAIN crun[k]
+LastRx(k, g) == IF g \in DOMAIN lastRx[k] THEN lastRx[k][g] ELSE 0
+RxAt(k, g) == lastRx' = [lastRx EXCEPT ![k] = (g :> T) @@ @]
 ClearPending(k, g) == /\ crun' = [crun EXCEPT ![k] = [h \in DOMAIN @ \ {g} |-> @[h]]]
-                      /\ UNCHANGED <<ncalls, tmo, t0, dlvAt, ansAt, trying, early, clun, indlv, recBy, sending, refused>>
+                      /\ UNCHANGED OtherAux
+\* the reader has taken a packet: whatever its kind (a pong is a packet), the 10 s of silence start again
+Took(k, g) == RxAt(k, g) /\ UNCHANGED <<OtherAux, crun>>
 TReader == LET k == E.c  g == E.g IN
   /\ OnLink
   /\ CASE K = "pkt.exit"   -> PktExit(k, g) /\ Same(aux)
        [] K = "cr.eof"     -> ConnReaderEOF(k, g) /\ Same(aux)
-       [] K = "cr.pong"    -> IF Pending(k, g) THEN crun[k][g].t = "pong" /\ NoOp /\ ClearPending(k, g)
-                              ELSE L(k, g).in # <<>> /\ Head(L(k, g).in).t = "pong" /\ ConnReaderRecv(k, g) /\ Same(aux)
-       [] K = "cr.offer"   -> IF Pending(k, g) THEN PktMatches(crun[k][g]) /\ NoOp /\ ClearPending(k, g)
-                              ELSE L(k, g).in # <<>> /\ PktMatches(Head(L(k, g).in)) /\ ConnReaderRecv(k, g) /\ Same(aux)
-       [] K = "cr.offered" -> L(k, g).r = "run" /\ NoOp /\ Same(aux)          \* the silent HandOff has happened
-       [] K = "cr.silence" -> ConnReaderSilence(k, g) /\ Same(aux)
+       [] K = "cr.pong"    -> IF Pending(k, g) THEN crun[k][g].t = "pong" /\ NoOp /\ ClearPending(k, g) /\ RxAt(k, g)
+                              ELSE L(k, g).in # <<>> /\ Head(L(k, g).in).t = "pong" /\ ConnReaderRecv(k, g) /\ Took(k, g)
+       [] K = "cr.offer"   -> IF Pending(k, g) THEN PktMatches(crun[k][g]) /\ NoOp /\ ClearPending(k, g) /\ RxAt(k, g)
+                              ELSE L(k, g).in # <<>> /\ PktMatches(Head(L(k, g).in)) /\ ConnReaderRecv(k, g) /\ Took(k, g)
+       [] K = "cr.offered" -> L(k, g).r = "run" /\ NoOp /\ Took(k, g)          \* the silent HandOff has happened
+       \* the silence branch is taken only after SilenceMs without any packet on this reader
+       [] K = "cr.silence" -> T + 5 >= LastRx(k, g) + SilenceMs /\ ConnReaderSilence(k, g) /\ Same(aux)
        [] K = "cr.exit"    -> L(k, g).r = "dead" /\ NoOp /\ Same(aux)
 ReaderKinds == {"pkt.exit", "cr.eof", "cr.pong", "cr.offer", "cr.offered", "cr.silence", "cr.exit"}
 
@@ -218,17 +234,17 @@ TClient == LET k == E.c IN
             /\ clun[k] /\ clr[k].st = "got" /\ PktMatches(clr[k].pkt)
             /\ clun' = [clun EXCEPT ![k] = FALSE]
             /\ IF E.ty = "ans" THEN NoOp ELSE ClientReaderLookup(k)      \* not an answer: `continue`
-            /\ UNCHANGED <<ncalls, tmo, t0, dlvAt, ansAt, trying, early, indlv, recBy, crun, sending, refused>>
+            /\ UNCHANGED <<ncalls, tmo, t0, dlvAt, ansAt, trying, early, indlv, recBy, crun, sending, refused, dl, lastRx>>
        [] K = "lookup" ->
             /\ ~clun[k] /\ clr[k].st = "got" /\ clr[k].pkt.t = "ans" /\ clr[k].pkt.id = E.i
             /\ ClientReaderLookup(k) /\ (E.found = 1) = (clr'[k].st = "found") /\ Same(aux)
        [] K = "dlv.pre" ->
             /\ clr[k].st = "found" /\ clr[k].pkt.id = E.i /\ ~indlv[k] /\ ClientReaderDeliver(k)
             /\ indlv' = [indlv EXCEPT ![k] = TRUE] /\ dlvAt' = [dlvAt EXCEPT ![E.i] = T]
-            /\ UNCHANGED <<ncalls, tmo, t0, ansAt, trying, early, clun, recBy, crun, sending, refused>>
+            /\ UNCHANGED <<ncalls, tmo, t0, ansAt, trying, early, clun, recBy, crun, sending, refused, dl, lastRx>>
        [] K = "dlv.post" ->
             /\ indlv[k] /\ indlv' = [indlv EXCEPT ![k] = FALSE] /\ NoOp
-            /\ UNCHANGED <<ncalls, tmo, t0, dlvAt, ansAt, trying, early, clun, recBy, crun, sending, refused>>
+            /\ UNCHANGED <<ncalls, tmo, t0, dlvAt, ansAt, trying, early, clun, recBy, crun, sending, refused, dl, lastRx>>
 ClientKinds == {"cl.recv", "lookup", "dlv.pre", "dlv.post"}
 
 \* --------------------------------------------------------------- reconnect
@@ -242,10 +258,12 @@ TReconnect == LET k == E.c IN
        \* a dial fails only because the server closed that attempt during its handshake
        [] K = "rc.dialfail" -> /\ DialFail(k) /\ refused > 0 /\ refused' = refused - 1
                                /\ recBy' = [recBy EXCEPT ![k] = IF @ = Inf THEN Inf ELSE Max2(@, T) + RetryMs + Slack]
-                               /\ UNCHANGED <<ncalls, tmo, t0, dlvAt, ansAt, trying, early, clun, indlv, crun, sending>>
+                               /\ UNCHANGED <<ncalls, tmo, t0, dlvAt, ansAt, trying, early, clun, indlv, crun, sending, dl, lastRx>>
        [] K = "conn.up" -> /\ E.g = gen[k] + 1 /\ SetupDone(k)
                            /\ recBy' = [recBy EXCEPT ![k] = IF L(k, E.g).fin = "open" THEN Inf ELSE T + RecoverMs]
-                           /\ UNCHANGED <<ncalls, tmo, t0, dlvAt, ansAt, trying, early, clun, indlv, crun, sending, refused>>
+                           \* the new reader's silence timer starts with it (unless it was seen at work already)
+                           /\ lastRx' = [lastRx EXCEPT ![k] = IF E.g \in DOMAIN @ THEN @ ELSE (E.g :> T) @@ @]
+                           /\ UNCHANGED <<ncalls, tmo, t0, dlvAt, ansAt, trying, early, clun, indlv, crun, sending, refused, dl>>
 ReconnectKinds == {"rc.begin", "rc.skip", "rc.dialfail", "conn.up"}
 
 \* --------------------------------------------------------------- quiescence
@@ -268,14 +286,14 @@ Silent ==
   /\ l <= N /\ UNCHANGED <<l, seg, now>>
   /\ \/ /\ K = "srv.recv" /\ E.i \in Calls /\ trying[E.i] /\ ~early[E.i] /\ pc[E.i] = "picked" /\ conn[E.i] = E.c
         /\ SendOk(E.i) /\ early' = [early EXCEPT ![E.i] = TRUE]
-        /\ UNCHANGED <<ncalls, tmo, t0, dlvAt, ansAt, trying, clun, indlv, recBy, crun, sending, refused>>
+        /\ UNCHANGED <<ncalls, tmo, t0, dlvAt, ansAt, trying, clun, indlv, recBy, crun, sending, refused, dl, lastRx>>
      \/ /\ K = "cr.offered" /\ OnLink /\ L(E.c, E.g).r = "offer" /\ ~clun[E.c]
         /\ HandOff(E.c, E.g) /\ clun' = [clun EXCEPT ![E.c] = TRUE]
-        /\ UNCHANGED <<ncalls, tmo, t0, dlvAt, ansAt, trying, early, indlv, recBy, crun, sending, refused>>
+        /\ UNCHANGED <<ncalls, tmo, t0, dlvAt, ansAt, trying, early, indlv, recBy, crun, sending, refused, dl, lastRx>>
      \/ /\ K = "cl.recv" /\ E.c \in Conns /\ ~clun[E.c]
         /\ \E g \in Gens(E.c) : L(E.c, g).r = "offer" /\ PktMatches(L(E.c, g).rh) /\ HandOff(E.c, g)
         /\ clun' = [clun EXCEPT ![E.c] = TRUE]
-        /\ UNCHANGED <<ncalls, tmo, t0, dlvAt, ansAt, trying, early, indlv, recBy, crun, sending, refused>>
+        /\ UNCHANGED <<ncalls, tmo, t0, dlvAt, ansAt, trying, early, indlv, recBy, crun, sending, refused, dl, lastRx>>
      \/ /\ K = "Quiesce" /\ \E k \in Conns : \E g \in Gens(k) : PktStuck(k, g)
         /\ Same(aux)
      \* P logs its exit: it has handed over everything it parsed, so R has taken the last packet even if R's hook comes later
@@ -284,14 +302,14 @@ Silent ==
      \/ /\ K \in ReaderKinds /\ OnLink /\ E.g = gen[E.c] + 1 /\ L(E.c, E.g).p = "new"
         /\ SetL(E.c, E.g, [L(E.c, E.g) EXCEPT !.p = "run", !.r = "run"])
         /\ UNCHANGED <<callVars, status, gen, clr, rcq, dial, produced, drops, noise, sil>>
-        /\ Same(aux)
+        /\ RxAt(E.c, E.g) /\ UNCHANGED <<OtherAux, crun>>
      \/ /\ K = "pkt.exit" /\ OnLink /\ Len(L(E.c, E.g).in) = 1 /\ ~Pending(E.c, E.g)
         /\ crun' = [crun EXCEPT ![E.c] = (E.g :> Head(L(E.c, E.g).in)) @@ @]
         /\ ConnReaderRecv(E.c, E.g)
-        /\ UNCHANGED <<ncalls, tmo, t0, dlvAt, ansAt, trying, early, clun, indlv, recBy, sending, refused>>
+        /\ UNCHANGED <<ncalls, tmo, t0, dlvAt, ansAt, trying, early, clun, indlv, recBy, sending, refused, dl, lastRx>>
 
 \* ------------------------------------------------------- what must hold after every event
-InTime == /\ \A c \in Calls : (t0'[c] # Inf /\ pc'[c] # "done") => now' <= t0'[c] + tmo' + Slack
+InTime == /\ \A c \in Calls : (t0'[c] # Inf /\ pc'[c] # "done") => now' <= t0'[c] + dl'[c] + Slack
           /\ \A k \in Conns : now' <= recBy'[k]
 Holds == OwnAnswer /\ ChanOwn /\ ReaderNeverBlocks /\ RegisteredWhileWaiting /\ StatusLink /\ NoLeak
 
